@@ -2279,6 +2279,7 @@ def _str_range(I, st, sv, r, site, checked):
             D.set_iv(s1, n[1], 0, USIZE_MAX)
             alo, ahi = D.get_iv(s1, a[1])
             sub = ('str', sub_str(I, s1, sv, n[1], keep_first=(alo == ahi == 0), start=a))
+            I.slice_of[sub[1].ident] = (sv.ident, a[1], e[1])     # provenance: which byte range of which string
     return (s1 if feas else None), sub, inb and bound, (a, e)
 
 
@@ -2413,6 +2414,8 @@ def m_str_parse(I, st, args, dty, site):
                 s1 = None
         if s1 is not None:
             v = I.top(s1, tgt, 'parsed', lo=max(lo, 0) if (sv is not None and sv.digits) else lo, hi=hi)
+            if sv is not None:
+                I.parsed_from[v[1]] = sv.ident      # provenance: the number denoted by this string
             outs.append((s1, ok(v)))
         sure = False
         if sv is not None and sv.digits:
